@@ -5,4 +5,4 @@ CHECK_DEADLOCK FALSE
 CONSTANTS
   Budget = 2
   Big = TRUE
-  Types = {}
+  Types = {"SN", "CG", "GS", "SNM", "CGN", "GSN", "I32", "U8", "BOOL", "STR", "COL", "SUIT", "BS8", "BS12", "SEC"}
